@@ -10,6 +10,11 @@ NET = 'tracklib.core.network'
 WMAX = 1000
 
 
+def core_is_num(v):
+    from symx import core
+    return core.is_sym(v) or (isinstance(v, (int, float)) and not isinstance(v, bool))
+
+
 def _nodes(topo, base=('n0', 'n1', 'n2')):
     ns = list(base)
     for a, b, _ in topo:
@@ -52,6 +57,16 @@ class C06(Check):
                 for s in N3:
                     for t in N3:
                         js.append(dict(kind='target', topo=topo, s=s, t=t))
+        # value-kind probes: nodes and edges identified by the integers 0, 1, 2 (an id equal to 0 is falsy)
+        for ti, topo in enumerate(netlib.topologies(N3, 1) + netlib.topologies(N3, 2) + (netlib.topologies(N3, 3)[::7] if tier != 'quick' else netlib.topologies(N3, 3)[::97])):
+            it = netlib.int_ids(topo)
+            for s_ in (0, 1, 2):
+                for t_ in (0, 1, 2):
+                    if len(topo) == 1 or (ti + s_ + t_) % 3 == 0 or tier != 'quick':
+                        js.append(dict(kind='target', topo=it, s=s_, t=t_, ids='int'))
+            if len(topo) == 1 or ti % 5 == 0:
+                js.append(dict(kind='all', topo=it, ids='int'))
+                js.append(dict(kind='cut', topo=it, s=0, ids='int'))
         for k in range(len(self.PD_SCRIPTS) if tier == 'thorough' else 2):
             js.append(dict(kind='pdict', script=k, topo=[]))
         for topo in netlib.topologies(N3, 1) + netlib.topologies(N3, 2)[::3]:
@@ -116,8 +131,9 @@ class C06(Check):
         eng = ctx.eng
         topo = [tuple(e) for e in job['topo']]
         W = [eng.real('w%d' % i, 0, WMAX) for i in range(len(topo))]
-        nodes = _nodes(topo)
-        net = netlib.build(topo, W, nodes, style)
+        ints = job.get('ids') == 'int'
+        nodes = _nodes(topo, base=(0, 1, 2)) if ints else _nodes(topo)
+        net = netlib.build(topo, W, nodes, style, int_edge_ids=ints)
         return topo, W, [w.z for w in W], nodes, net
 
     def path(self, ctx, job):
@@ -145,8 +161,11 @@ class C06(Check):
             except Exception as e:
                 ctx.fail('shortest_distance raised %s: %s' % (type(e).__name__, e))
                 return
-            ctx.observe(d=d)
             ctx.reach()
+            if not (core_is_num(d)):
+                ctx.fail('shortest_distance(source, target) did not return a number')
+                return
+            ctx.observe(d=d)
             sums = netlib.walk_sums(topo, s, t, Wz)
             if sums:
                 ctx.prove(netlib.is_min(zreal(d), sums), 'shortest_distance(s,t) equals the minimum over permitted walks')
@@ -234,8 +253,9 @@ class C06(Check):
             return dict(violation=(v + ' [script %r, priorities %r]' % (self.PD_SCRIPTS[job['script']], vals)) if v else None, outputs={})
         topo = [tuple(e) for e in job['topo']]
         W = [float(inp['w%d' % i]) for i in range(len(topo))]
-        nodes = _nodes(topo)
-        net = netlib.build(topo, W, nodes)
+        ints = job.get('ids') == 'int'
+        nodes = _nodes(topo, base=(0, 1, 2)) if ints else _nodes(topo)
+        net = netlib.build(topo, W, nodes, int_edge_ids=ints)
         D = netlib.floyd(topo, W, nodes)
         # exact rational oracle next to the float one: a pair *exactly* at the cut-off must be present; a verdict is
         # only reported when the float and the exact oracle agree (so float rounding can never raise an alarm)
@@ -251,6 +271,8 @@ class C06(Check):
             except Exception as e:
                 return dict(violation='shortest_distance raised %s: %s' % (type(e).__name__, e))
             true = D[(s, t)]
+            if not isinstance(d, (int, float)):
+                return dict(violation='shortest_distance(%r, %r) returned %r instead of a number' % (s, t, d), outputs={})
             if true == INF:
                 v = None if d < 0 else 'unreachable pair %s->%s reported distance %r' % (s, t, d)
             else:
